@@ -381,9 +381,21 @@ def must_facts(cfg):
         if inv is TOP:
             return TOP
         d = stmt_defs(n)
-        if not d:
-            return inv
-        return frozenset(f for f in inv if not (f[3] & d))
+        out = inv if not d else frozenset(f for f in inv if not (f[3] & d))
+        a = getattr(n, 'ast', None)
+        if n.kind == 'stmt' and isinstance(a, ast.Expr) and isinstance(a.value, ast.Call):
+            # a call of a guard helper (a function whose body-level `if T: raise` / `assert T` statements test its parameters):
+            # after the call has returned, the guards hold for the actual arguments
+            gs = _call_guards(cfg, a.value)
+            if gs:
+                new = set(out)
+                for (t, p) in gs:
+                    for (t2, p2) in _split(t, p):
+                        new.add((cond_key(t2), p2, _Box(t2), frozenset(names_in(t2))))
+                out = frozenset(new)
+        return out
+
+    pure = pure_locals(cfg.fnode) if getattr(cfg, 'fnode', None) is not None else {}
 
     def edge(src, label, v):
         if v is TOP:
@@ -394,6 +406,11 @@ def must_facts(cfg):
         new = set(v)
         for (t, p) in _split(test, pol):
             new.add((cond_key(t), p, _Box(t), frozenset(names_in(t))))
+            if pure and (names_in(t) & set(pure)):
+                # copy propagation: `nleft == 1` with the single definition nleft = len(left) is also the fact len(left) == 1
+                t2 = _subst_pure(t, pure)
+                for (t3, p3) in _split(t2, p):
+                    new.add((cond_key(t3), p3, _Box(t3), frozenset(names_in(t3) | names_in(t))))
         return frozenset(new)
 
     def join(vals):
@@ -407,8 +424,160 @@ def must_facts(cfg):
     IN, OUT = forward(cfg, frozenset(), transfer, join, edge_transfer=edge)
     res = {}
     for k, v in IN.items():
-        res[k] = frozenset() if v is TOP else v
+        res[k] = frozenset() if v is TOP else _close_disjunctions(v)
     return res
+
+
+def _close_disjunctions(fs):
+    """(A or B) holds and A is false  =>  B holds;  not (A and B) holds and A holds  =>  B is false"""
+    if not any(isinstance(f[2].ast, ast.BoolOp) for f in fs):
+        return fs
+    facts = set(fs)
+    have = {(f[0], f[1]) for f in facts}
+    changed = True
+    while changed:
+        changed = False
+        for f in list(facts):
+            t, pol = f[2].ast, f[1]
+            if not isinstance(t, ast.BoolOp):
+                continue
+            want_or = isinstance(t.op, ast.Or) and pol
+            want_and = isinstance(t.op, ast.And) and not pol
+            if not (want_or or want_and):
+                continue
+            # for Or-true: disjuncts known false are eliminated; for And-false: conjuncts known true are eliminated
+            rest = []
+            for x in t.values:
+                atoms = list(_split(x, not want_or))          # the condition under which x is eliminated
+                if all((cond_key(a), p) in have for (a, p) in atoms):
+                    continue
+                rest.append(x)
+            if len(rest) == 1:
+                for (a, p) in _split(rest[0], want_or):
+                    k = (cond_key(a), p)
+                    if k not in have:
+                        have.add(k)
+                        facts.add((cond_key(a), p, _Box(a), f[3] | frozenset(names_in(a))))
+                        changed = True
+    return frozenset(facts)
+
+
+def pure_locals(fnode):
+    """name -> defining expression, for locals of the function that are bound exactly once by `name = <expr>`, are never
+    mutated (no subscript/attribute store on them, not an augmented-assignment target) and whose expression is not an array
+    allocation and mentions no name that is bound after the definition.  Substituting such a local by its definition does
+    not change the meaning of a condition."""
+    counts = {}
+    defs = {}
+    mutated = set()
+    params = {a.arg for a in fnode.args.posonlyargs + fnode.args.args + fnode.args.kwonlyargs}
+    if fnode.args.vararg:
+        params.add(fnode.args.vararg.arg)
+    if fnode.args.kwarg:
+        params.add(fnode.args.kwarg.arg)
+    bind_lines = {}
+
+    def bind(name, line):
+        counts[name] = counts.get(name, 0) + 1
+        bind_lines.setdefault(name, []).append(line)
+
+    for p_ in params:
+        bind(p_, 0)
+    for n in ast.walk(fnode):
+        if n is fnode:
+            continue
+        if isinstance(n, ast.Assign):
+            for t in n.targets:
+                for x in ast.walk(t):
+                    if isinstance(x, ast.Name) and isinstance(x.ctx, ast.Store):
+                        bind(x.id, n.lineno)
+                if isinstance(t, (ast.Subscript, ast.Attribute)):
+                    b = t
+                    while isinstance(b, (ast.Subscript, ast.Attribute)):
+                        b = b.value
+                    if isinstance(b, ast.Name):
+                        mutated.add(b.id)
+            if len(n.targets) == 1 and isinstance(n.targets[0], ast.Name):
+                defs.setdefault(n.targets[0].id, []).append(n)
+            elif len(n.targets) == 1 and isinstance(n.targets[0], (ast.Tuple, ast.List)) and isinstance(n.value, (ast.Tuple, ast.List)) \
+                    and len(n.targets[0].elts) == len(n.value.elts) and all(isinstance(t, ast.Name) for t in n.targets[0].elts):
+                # a, b = x, y : component-wise definitions
+                for t_, v_ in zip(n.targets[0].elts, n.value.elts):
+                    pseudo = ast.Assign(targets=[t_], value=v_)
+                    ast.copy_location(pseudo, n)
+                    defs.setdefault(t_.id, []).append(pseudo)
+        elif isinstance(n, ast.AugAssign):
+            for x in ast.walk(n.target):
+                if isinstance(x, ast.Name):
+                    bind(x.id, n.lineno)
+                    mutated.add(x.id)
+        elif isinstance(n, (ast.For, ast.AsyncFor)):
+            for x in ast.walk(n.target):
+                if isinstance(x, ast.Name):
+                    bind(x.id, n.lineno)
+        elif isinstance(n, (ast.With, ast.AsyncWith)):
+            for it in n.items:
+                if it.optional_vars is not None:
+                    for x in ast.walk(it.optional_vars):
+                        if isinstance(x, ast.Name):
+                            bind(x.id, n.lineno)
+        elif isinstance(n, ast.NamedExpr):
+            bind(n.target.id, n.lineno)
+        elif isinstance(n, (ast.Global, ast.Nonlocal)):
+            for nm in n.names:
+                mutated.add(nm)
+        elif isinstance(n, ast.ExceptHandler) and n.name:
+            bind(n.name, n.lineno)
+        elif isinstance(n, ast.Call) and isinstance(n.func, ast.Attribute) and isinstance(n.func.value, ast.Name) and \
+                n.func.attr in ('append', 'extend', 'insert', 'pop', 'remove', 'sort', 'reverse', 'clear', 'fill', 'resize', 'put', 'itemset', 'update'):
+            mutated.add(n.func.value.id)
+    ALLOC = {'zeros', 'ones', 'empty', 'eye', 'identity', 'array', 'asarray', 'copy', 'deepcopy', 'list', 'dict', 'set', 'full'}
+    out = {}
+    for name, ds in defs.items():
+        if counts.get(name, 0) != 1 or name in mutated or name in params:
+            continue
+        st = ds[0]
+        v = st.value
+        if isinstance(v, (ast.List, ast.Dict, ast.Set, ast.ListComp, ast.DictComp, ast.SetComp, ast.GeneratorExp, ast.Lambda, ast.Yield, ast.Await)):
+            continue
+        if isinstance(v, ast.Call):
+            fn = v.func.attr if isinstance(v.func, ast.Attribute) else (v.func.id if isinstance(v.func, ast.Name) else None)
+            if fn in ALLOC:
+                continue
+        if sum(1 for _ in ast.walk(v)) > 40:
+            continue
+        ok = True
+        for x in ast.walk(v):
+            if isinstance(x, ast.Name):
+                if x.id == name:
+                    ok = False
+                later = [l for l in bind_lines.get(x.id, []) if l > st.lineno]
+                if later or x.id in mutated:
+                    ok = False
+        if ok:
+            out[name] = v
+    # definitions may mention other pure locals: resolve transitively (bounded)
+    for _ in range(3):
+        for name in list(out):
+            if names_in(out[name]) & set(out):
+                out[name] = _subst_pure(out[name], {k: v for k, v in out.items() if k != name})
+    return out
+
+
+class _SubstPure(ast.NodeTransformer):
+    def __init__(self, env):
+        self.env = env
+
+    def visit_Name(self, n):
+        if isinstance(n.ctx, ast.Load) and n.id in self.env:
+            import copy
+            return copy.deepcopy(self.env[n.id])
+        return n
+
+
+def _subst_pure(t, env):
+    import copy
+    return _SubstPure(env).visit(copy.deepcopy(t))
 
 
 class _Box:
@@ -448,3 +617,81 @@ def fact_holds(facts, pred):
         if pred(f[2].ast, f[1]):
             return True
     return False
+
+
+# ---------------------------------------------------------------------- guard helpers (interprocedural facts)
+_guard_cache = {}
+
+
+def _call_guards(cfg, call):
+    """[(test AST over the caller's expressions, polarity)] established by a returning call of a guard helper"""
+    try:
+        from .model import program
+        from .scope import FuncInfo
+        prog = program()
+        f = prog.function_of_node(cfg.fnode)
+        if f is None:
+            return []
+        fi = FuncInfo.of(f)
+        t = fi.resolve(call.func)
+    except Exception:
+        return []
+    g = t.obj if getattr(t, 'kind', None) in ('func', 'method') else None
+    if g is None or not hasattr(g, 'node') or g.module.short == 'stdlib/collections':
+        return []
+    key = (id(prog), g.key)
+    if key not in _guard_cache:
+        _guard_cache[key] = _guard_summary(g)
+    summ = _guard_cache[key]
+    if not summ:
+        return []
+    formals = list(g.params)
+    actual = {}
+    args = list(call.args)
+    if any(isinstance(a, ast.Starred) for a in args) or any(k.arg is None for k in call.keywords):
+        return []
+    if t.kind == 'method' and formals and getattr(g, 'kind', '') not in ('static',):
+        if isinstance(call.func, ast.Attribute):
+            actual[formals[0]] = call.func.value
+        formals = formals[1:]
+    for fp, a in zip(formals, args):
+        actual[fp] = a
+    for k in call.keywords:
+        actual[k.arg] = k.value
+    out = []
+    for (test, pol, names) in summ:
+        if not names <= set(actual):
+            continue
+        out.append((_subst_pure(test, {n: actual[n] for n in names}), pol))
+    return out
+
+
+def _guard_summary(g):
+    """body-level guards of g: [(test, polarity that holds after g returns, parameter names in the test)]"""
+    out = []
+    rebound = set()
+    params = set(g.allparams) if hasattr(g, 'allparams') else set(g.params)
+    body = [st for st in g.node.body if not (isinstance(st, ast.Expr) and isinstance(st.value, ast.Constant))]
+    if len(body) > 6:
+        return []
+    for st in body:
+        test = pol = None
+        if isinstance(st, ast.If) and not st.orelse and st.body and isinstance(st.body[-1], ast.Raise):
+            test, pol = st.test, False
+        elif isinstance(st, ast.Assert):
+            test, pol = st.test, True
+        elif isinstance(st, (ast.Return, ast.Pass)):
+            continue
+        else:
+            return []          # not a pure guard helper
+        names = names_in(test)
+        locs = {n for n in names if n in params}
+        free_locals = {n for n in names if n not in params}
+        # names that are not parameters must be globals/builtins (type, len, isinstance ...): accept only call heads
+        heads = {x.func.id for x in ast.walk(test) if isinstance(x, ast.Call) and isinstance(x.func, ast.Name)}
+        if not (free_locals <= heads | {'np', 'base', 'math'}):
+            continue
+        if locs & rebound:
+            continue
+        out.append((test, pol, frozenset(locs)))
+    return out
